@@ -966,6 +966,9 @@ func (self *Node) Move(dst, src int) error {
 
 	// check if any unset node exists
 	if l := s.Len(); self.len() != l {
+		if src < 0 || src >= self.len() || dst < 0 || dst >= self.len() {
+			return nil
+		}
 		di, si := dst, src
 		// find real pos of src and dst
 		for i := 0; i < l; i++ {
